@@ -49,13 +49,20 @@ def workload(draw, pool_stmts):
     idx = draw(st.lists(st.integers(0, len(base) - 1), min_size=1, max_size=10))
     stmts = [base[i] for i in idx]
     entry = draw(st.sampled_from(["stream_frames", "flat_stream_to_frames", "steps", "steps"])) if phys != "GRAPHS" else "stream_frames"
+    bindings = None
+    if integration == "generic" and entry == "stream_frames" and draw(st.booleans()):
+        # a generic sink (ordered) with several namespace bindings, declarations switched on
+        entry = "stream_frames_sink"
+        names = draw(st.lists(st.sampled_from(["ex", "a", "b", "", "ns2", "foaf", "zz", "p1"]), min_size=2, max_size=5, unique=True))
+        bindings = [[n, "http://ns-%s.example/%s" % (n or "empty", "x#" if i % 2 else "")] for i, n in enumerate(names)]
     return {"type": "ser", "integration": integration, "phys": phys, "statements": stmts,
             "entry": entry, "share_options": draw(st.booleans()),
             "logical": 1 if phys == "TRIPLES" else 2, "delimited": True,
             "frame_size": draw(st.sampled_from([1, 2, 3] if entry != "steps" else [2, 5, 250])),
             "preset": draw(gen.preset_for(stmts)),
+            "bindings": bindings,
             "params": {"generalized": False, "rdf_star": False, "stream_name": "",
-                       "namespace_declarations": False}}
+                       "namespace_declarations": bindings is not None}}
 
 
 @st.composite
@@ -141,7 +148,10 @@ def make_gen(w, shared=None):
             f = stream.flow.to_stream_frame()
             yield f.SerializeToString(deterministic=True).hex() if f is not None else "-"
         return g()
-    if w["entry"] == "stream_frames":
+    if w["entry"] == "stream_frames_sink":
+        stream = stream_for(w, shared)
+        frames = ser.stream_frames(stream, pyj.generic_sink(w["statements"], w.get("bindings") or ()))
+    elif w["entry"] == "stream_frames":
         stream = stream_for(w, shared)
         frames = ser.stream_frames(stream, (s for s in stmts))
     else:
